@@ -50,6 +50,10 @@ func (fakeTransport) RoundTrip(req *http.Request) (*http.Response, error) {
 		return mk(200, `false`, "application/json"), nil
 	case strings.Contains(u, "cmd=null"):
 		return mk(200, `null`, "application/json"), nil
+	case strings.Contains(u, "cmd=hugeexp"):
+		return mk(200, `1e999999`, "application/json"), nil
+	case strings.Contains(u, "cmd=nested"):
+		return mk(200, `{"a":{"b":[null,{"c":1e999999},[]]},"":{"":null}}`, "application/json"), nil
 	case strings.Contains(u, "cmd=number"):
 		return mk(200, `23.50`, "application/json"), nil
 	case strings.Contains(u, "cmd=string"):
